@@ -38,9 +38,10 @@ def summarize(res):
     if res.get('status') != 'ok':
         return '%-40s BROKEN %s' % (res['unit'] + '/' + res['harness'], res.get('reason', '')[:2000])
     ob = res['obligations']
-    fails = [o for o in ob if o['status'] != 'SUCCESS']
-    s = '%-40s %s %d/%d  %.1fs%s' % (res['unit'] + '/' + res['harness'], res['method'], len(ob) - len(fails), len(ob),
-                                   res.get('solver_s', 0), ' (cached)' if res.get('cached') else '')
+    unknown = [o for o in ob if o['status'] == 'UNKNOWN']
+    fails = [o for o in ob if o['status'] not in ('SUCCESS', 'UNKNOWN')]
+    s = '%-40s %s %d/%d  %.1fs%s%s' % (res['unit'] + '/' + res['harness'], res['method'], len(ob) - len(fails) - len(unknown), len(ob),
+                                     res.get('solver_s', 0), ' (cached)' if res.get('cached') else '', (' [%d UNKNOWN: undecided behind the failures]' % len(unknown)) if unknown else '')
     for o in fails:
         s += '\n     FAIL %s [%s] %s:%s %s' % (o['name'], o['class'], o['file'], o['line'], o['desc'][:160])
     for w in res.get('warnings', []):
